@@ -222,6 +222,22 @@ pub fn same_mat<T: Elem>(a: &M<T>, b: &M<T>) -> bool {
     a.len() == b.len() && a.iter().zip(b).all(|(r, s)| r.len() == s.len() && r.iter().zip(s).all(|(x, y)| x.same(y)))
 }
 /// product of the row 2-norms (Hadamard bound on |det|)
+/// Determinant perturbation scale for Gaussian elimination with partial pivoting, whose backward error is
+/// |dA_ij| <= c n eps rho max|a| for every entry (relative to the largest entry, *not* to the row it sits in):
+/// |d det| <= sum_ij |dA_ij| |cofactor_ij| <= n^2 (c n eps rho max|a|) max_i prod_{k != i} ||row_k||_2.
+/// Equals `hadamard` up to the factor max|a| / min_i ||row_i|| - i.e. the same for rows of similar size, larger
+/// for badly row-scaled matrices (where elimination with partial pivoting is not row-wise stable).
+pub fn hadamard_gepp(a: &M<C>) -> f64 {
+    let norms: Vec<f64> = a.iter().map(|r| r.iter().map(|z| z.0 * z.0 + z.1 * z.1).sum::<f64>().sqrt()).collect();
+    let amax = a.iter().flatten().map(|z| (z.0 * z.0 + z.1 * z.1).sqrt()).fold(0.0, f64::max);
+    let mut best = 0.0f64;
+    for i in 0..norms.len() {
+        let p: f64 = norms.iter().enumerate().filter(|(k, _)| *k != i).map(|(_, v)| *v).product();
+        best = best.max(p);
+    }
+    hadamard(a).max(amax * best)
+}
+
 pub fn hadamard(a: &M<C>) -> f64 {
     a.iter().map(|r| r.iter().map(|z| z.0 * z.0 + z.1 * z.1).sum::<f64>().sqrt()).product()
 }
